@@ -228,6 +228,31 @@ def viewsFrom : Nat → List LockEv → Nat
 
 def views (p : List LockEv) : Nat := viewsFrom 0 p
 
+/-! ## Look-ups: which ops combine a look-up outside the locks with one inside (torn-read shape)
+
+`Gen/Locks.lean` carries, per entry, the store look-ups made OUTSIDE any `header_pmmr` / `txhashset` hold
+(`dbReadsOutside`, by store method name).  A look-up keyed by block hash (`immutableLookups`) answers the
+same for ever (the entry can only disappear through compaction); the others (`head`, `header_head`,
+`tail`, `head_header`, the `output_pos` index, …) change with every commit.  An op has the TORN-READ
+SHAPE when it combines look-ups of mutable state that a writer's critical section can fall between:
+two or more lock holds, or one lock hold plus a mutable look-up outside it, or (lock-free) two or more
+mutable look-ups. -/
+
+/-- number of maximal intervals during which the op holds `header_pmmr` or `txhashset` -/
+def holdsOf (p : List LockEv) : Nat :=
+  views (p.filter (fun e => match e with | .mark .dbread => false | _ => true))
+
+/-- store methods whose answer for a given argument never changes (content-addressed by block hash) -/
+def immutableLookups : List String :=
+  ["get_block", "get_block_header", "get_previous_header", "get_block_sums", "block_exists", "get_block_input_bitmap"]
+
+def mutableOnly (names : List String) : List String := names.filter (fun n => !immutableLookups.contains n)
+
+/-- the torn-read shape, from the hold count and the names of the look-ups made outside the holds -/
+def tornShape (holds : Nat) (outside : List String) : Bool :=
+  let mo := mutableOnly outside
+  decide (holds ≥ 2) || (holds == 1 && !mo.isEmpty) || (holds == 0 && decide (mo.length ≥ 2))
+
 /-! ## Executable scheduler (strict writer preference) used by the driver -/
 
 /-- Bool version of `Enabled strictWP` on the concrete alphabet -/
